@@ -83,7 +83,7 @@ PROPS = {
     "C10": dict(theorems=["C10_map_wf", "C10_paths", "C10_sanitize", "C10_field_key", "C10_nested_source_tag_refuted", "C10_engine_computes_semantics"], cone=ENGINE_CONE + ["Proofs/ErrsP.v", "Proofs/FrontEndsP.v"], rule=ENGINE_RULE,
                 families=[eng("engine", "C10", 1200, 20000, ["issues", "first", "panic", "sanitize"]),
                           # the map of a call after arbitrary earlier calls (Collect helpers, undecodable bodies): still keyed by its own issues' paths
-                          dict(name="history", family="history", profile="C07", quick=400, thorough=5000, tags=["issues", "first", "isolation", "issue_aliased", "panic"]),
+                          dict(name="history", family="history", profile="C07", quick=400, thorough=5000, tags=["issues", "first", "isolation", "issue_aliased", "held_result", "panic"]),
                           dict(name="fe", family="fe", profile="fe", quick=700, thorough=8000, tags=["issues", "first", "panic", "nested_source_tag"])]),
     "C12": dict(theorems=["C12_engine_computes_semantics", "C12_test_receives_the_tested_value", "C12_pts_prefix_in_order", "C12_pts_skipped_when_an_issue_exists", "C12_preprocess_error_skips_schema", "C12_preprocess_type_mismatch_skips_schema", "C12_ctx_values_are_this_calls", "C12_ctx_get_is_the_calls_last_option", "C12_ctx_last_call_wins", "C12_ctx_other_keys_nil", "C12_transforms_of_a_catching_node"], cone=ENGINE_CONE + ["Proofs/CatchP.v", "Proofs/ExactP.v", "Model/Objects.v", "Proofs/ObjectsP.v", "Model/Options.v", "Proofs/OptionsP.v"], rule=ENGINE_RULE,
                 families=[eng("engine", "C12", 1200, 20000, ["calls", "args", "ctx", "haserr", "panic"]),
